@@ -27,3 +27,35 @@ contract(CMx + 'bayesian_information_criterion', props=['C16', 'C19'],
                 2: dict(inv=["non_zero_params == runsum(model._point_labels, lambda k: " + _CP + ", _k)",
                              "last_point_label == ite(_k == 0, -1, model._point_labels[_k - 1])"],
                         modifies=[])})
+
+_NWc = "stacked_training_data.shape[1]"
+contract(CMx + 'calinski_harabasz_index', props=['C17', 'C19'],
+         params=dict(stacked_training_data='arr2[real]', model='obj:ModelState'), returns='real',
+         requires=["wf(model)", "len(model.clusters) >= 2", "stacked_training_data.shape[0] > len(model.clusters)",
+                   "len(model._point_labels) == stacked_training_data.shape[0]",
+                   "forall(0, len(model.clusters), lambda k: not isnone(model.clusters[k].stacked_data_mean) and "
+                   "model.clusters[k].stacked_data_mean.shape[0] == " + _NWc + " and len(model.clusters[k]._member_points) >= 1)"],
+         ghost={'numpy_float_division': True,    # np.float64 / 0 gives inf/nan, not ZeroDivisionError
+                'returns': dict(NUM='numerator', DEN='denominator', GC='global_center'),
+                'return_kinds': dict(NUM='arr2[real]', DEN='arr2[real]', GC='real'),
+                'native_ensures': [("native:matches-the-definition-with-the-per-column-centroid",
+                                    "result == chi_definition(stacked_training_data, model)")]},
+         ensures=[("ratio-and-degrees-of-freedom", "implies(trace(DEN) != 0, result == (trace(NUM) / trace(DEN)) * "
+                   "((stacked_training_data.shape[0] - len(model.clusters)) / (len(model.clusters) - 1)))"),
+                  # the property: cluster means are compared with the PER-COLUMN centroid of all windows
+                  ("global-centre-is-the-per-column-centroid", "forall(0, " + _NWc + ", lambda c: GC == colmean(stacked_training_data)[c])"),
+                  # what the code does instead (kept so that any further drift is noticed): the mean of ALL entries
+                  ("pinned:global-centre-is-the-mean-of-all-entries", "GC == mean_all(stacked_training_data)"),
+                  "NUM.shape[0] == " + _NWc + " and DEN.shape[0] == " + _NWc,
+                  "unchanged(stacked_training_data, model)"],
+         loops={1: dict(peel=1, inv=["numerator.shape[0] == " + _NWc + " and numerator.shape[1] == " + _NWc,
+                                    "denominator.shape[0] == " + _NWc + " and denominator.shape[1] == " + _NWc,
+                                    "fresh(numerator) and fresh(denominator) and not same(numerator, denominator)"],
+                        modifies=['numerator', 'denominator']),
+                2: dict(peel=1, inv=["denominator.shape[0] == " + _NWc + " and denominator.shape[1] == " + _NWc,
+                                    "fresh(denominator) and not same(numerator, denominator)"],
+                        modifies=['denominator'])})
+specfn('chi_definition', native="lambda X, model: (lambda K, T, g: "
+       "(sum(len(c.member_points) * float(np.sum((c.stacked_data_mean - g) ** 2)) for c in model.clusters) / (K - 1)) / "
+       "(sum(float(np.sum((X[p] - c.stacked_data_mean) ** 2)) for c in model.clusters for p in c.member_points) / (T - K)))"
+       "(len(model.clusters), len(X), X.mean(axis=0))")
